@@ -229,6 +229,11 @@ func runTLSClient(rt *Runtime, cs *connState, task int) {
 	}
 	cfg := &tls.Config{InsecureSkipVerify: true, Rand: &detRand{NewRand(rt.C.Sub ^ 0x7715)}, Time: func() time.Time { return tlsFixedTime },
 		MinVersion: tc.MinVer, MaxVersion: tc.MaxVer, ServerName: "psql-wire.sim"}
+	if tc.Cert {
+		if cert, err := testCertificate(); err == nil {
+			cfg.Certificates = []tls.Certificate{cert}
+		}
+	}
 	conn := tls.Client(end, cfg)
 	if err := conn.Handshake(); err != nil {
 		note("handshake", "failed: "+err.Error())
